@@ -1,15 +1,17 @@
 """Create scratch worktrees (outside /repo and /verif) and prompt files for the sub-agents that seed breaking changes."""
 import json, subprocess, os, sys
 props = {json.loads(l)['id']: json.loads(l) for l in open('/verif/properties.jsonl')}
-os.makedirs('/tmp/wt', exist_ok=True)
+BASE = os.environ.get('WT_BASE', '/tmp/wt')
+EXTRA = os.environ.get('PROMPT_EXTRA', '')
+os.makedirs(BASE, exist_ok=True)
 os.makedirs('/verif/out/agent_prompts', exist_ok=True)
 TEMPLATE = open('/verif/selftest/agent_prompt.txt').read()
 for pid in sys.argv[1:]:
-    wt = f'/tmp/wt/{pid}'
+    wt = f'{BASE}/{pid}'
     if not os.path.exists(wt):
         subprocess.run(['git', '-C', '/repo', 'worktree', 'add', '--detach', wt, 'HEAD', '-q'], check=True)
     p = props[pid]
     prompt = (TEMPLATE.replace('@WT@', wt).replace('@PID@', pid).replace('@TITLE@', p['title'])
-              .replace('@STATEMENT@', p['statement']).replace('@QUANT@', p['quantifier']['text']))
+              .replace('@STATEMENT@', p['statement']).replace('@QUANT@', p['quantifier']['text'])) + ('\n\n' + EXTRA if EXTRA else '')
     open(f'/verif/out/agent_prompts/{pid}.txt', 'w').write(prompt)
     print(pid, wt)
